@@ -133,6 +133,11 @@ var zzStreams = []string{
 	`<html xmlns:og="http://ogp.me/ns#" xmlns:x="http://ogp.me/ns/x#"><head><meta property="og:type" content="profile"><meta property="profile:first_name" content="A"><meta property="og:title" content="T"><meta property="og:url" content="u"><meta property="og:image" content="i"></head><body><p>` + zzLong + `</p>`,
 	`<head><title></title><meta name="title"><meta name="displaydate" content=""></head><figure><img width="x" height="0"><figcaption></figcaption><figcaption></figcaption><figcaption></figcaption></figure><img width="800" height="400"><p class="byline-name"></p><p>` + zzLong + `</p>`,
 	`<a rel="author"></a><link rel="author"><div itemscope itemtype="http://schema.org/NewsArticle" itemid="x"><meta itemprop="datePublished"><img itemprop="image"><a itemprop="url"></a></div><p>` + zzLong + `</p>`,
+	// document-level references: base URLs, microdata references (also cyclic ones), non-ASCII bytes
+	`<head><base href="/"><base href="../x/"></head><p>` + zzLong + ` <a href="rel">l</a><img src="i.png"></p>`,
+	`<head><base href="//b.t/"></head><p>` + zzLong + ` <a href="?q">l</a></p><base href="%zz"><base>`,
+	`<div id="card"><div itemscope itemref="card"><span itemprop="name">n</span></div></div><div itemscope itemtype="http://schema.org/Article" itemref="a b a" id="a"><span id="b" itemprop="headline" itemref="a">h</span></div><p>` + zzLong + `</p>`,
+	"<p>caf\u00e9 cafe\u0301 so\u00adft \ud55c\uad6d\uc5b4 \u4e2d\u6587 " + zzLong + "</p>",
 }
 
 // HarnessC01Streams: ApplyForReader / ApplyForFile on odd byte streams
